@@ -292,9 +292,13 @@ class Point(object):
                 raise ValueError("The PEP must be solved to evaluate Points!")
             # If linear combination, combine the values of the leaf, and store the result before returning it.
             else:
-                value = np.zeros(Point.counter)
+                # Note the dimension is the one of the values of the leaf points (fixed by the solve),
+                # not the current number of leaf points (some may have been created since then).
+                value = None
                 for point, weight in self.decomposition_dict.items():
-                    value += weight * point.eval()
+                    value = weight * point.eval() if value is None else value + weight * point.eval()
+                if value is None:
+                    value = np.zeros(Point.counter)
                 self._value = value
 
         return self._value
